@@ -227,10 +227,15 @@ pub fn run(opts: &Opts) -> Report {
             // that removed a lock file belonging to a live contender
             let mut sig = "C18|two-authorities|other".to_string();
             let ats = |st: &str| -> Vec<String> { st.split("at=").nth(1).unwrap_or("").split(',').map(|x| x.to_string()).collect() };
+            // what each contender's last re-read (stale cleanup) / check (corrupt cleanup) found on disk
+            let mut saw: Vec<String> = vec![String::new(); n];
             for k in 1..out.states.len() {
                 let (prev, cur) = (&out.states[k - 1], &out.states[k]);
                 let (pa, ca) = (ats(prev), ats(cur));
                 for i in 0..n {
+                    if (pa[i] == "auth.stale.reread" || pa[i] == "auth.corrupt.check") && ca[i] != pa[i] {
+                        saw[i] = prev.split(' ').next().unwrap_or("").to_string(); // lock=dead | lock=invalid | lock=live | lock=none
+                    }
                     let renaming = pa[i] == "auth.stale.rename" || pa[i] == "auth.corrupt.rename";
                     if !renaming || ca[i] == pa[i] {
                         continue;
@@ -239,9 +244,17 @@ pub fn run(opts: &Opts) -> Report {
                     let someone_owns = (0..n).any(|j| j != i && matches!(pa[j].as_str(), "auth.acquire.write" | "h.holding" | "auth.drop.meta" | "auth.drop.lock"));
                     let foreign = prev.starts_with("lock=live") || (prev.starts_with("lock=invalid") && someone_owns);
                     if foreign && sig.ends_with("other") {
-                        sig = if pa[i] == "auth.stale.rename" {
+                        // the two recorded windows: the re-read really saw the dead authority's record (stale
+                        // cleanup) / the check really saw a lock without meta (corrupt cleanup) and the file was
+                        // replaced before the rename. A cleanup that goes ahead after seeing anything else is a
+                        // different failure.
+                        sig = if pa[i] == "auth.stale.rename" && saw[i] == "lock=dead" {
                             "C18|two-authorities|stale-cleanup-reread-rename-gap".to_string()
+                        } else if pa[i] == "auth.stale.rename" {
+                            format!("C18|two-authorities|stale-cleanup-went-ahead-after-reading-{}", saw[i].replace('=', "-"))
                         } else {
+                            // the corrupt-cleanup check looks at existence only (lock present, meta absent), so
+                            // whatever the file held by then the window is the same
                             "C18|two-authorities|corrupt-cleanup-check-rename-gap".to_string()
                         };
                     }
